@@ -21,9 +21,15 @@ func scenCancel(m int, mask int, instant string) *connRun {
 	cancels := make([]context.CancelFunc, m)
 	toks := make([]int, m)
 	var g *gate
+	base := 0
+	if instant == "before-send-busy" {
+		w := e.call("echo", context.Background())
+		e.waitEv(2*time.Second, func(ev tev) bool { return ev.Point == "call.return" && fmt.Sprint(ev.Args[0]) == fmt.Sprint(w) })
+		base = 1
+	}
 	for i := 0; i < m; i++ {
 		ctxs[i], cancels[i] = context.WithCancel(context.Background())
-		e.hold(i + 1)
+		e.hold(base + i + 1)
 	}
 	if instant == "before-send" {
 		for i := 0; i < m; i++ {
@@ -36,10 +42,21 @@ func scenCancel(m int, mask int, instant string) *connRun {
 	if instant == "race-response" {
 		g = e.tr.gate("resp.lookup", nil)
 	}
+	if instant == "before-send-busy" {
+		// the server's frame executor is held with the first request in its hands, so the cancel requests that follow
+		// on the wire reach the connection while their calls are not registered yet: they must not be lost
+		g = e.tr.gate("exec.take", func(conn string, args []interface{}) bool { return strings.HasPrefix(conn, "ws-server") })
+		for i := 0; i < m; i++ {
+			if mask&(1<<i) != 0 {
+				e.tr.ev("ctx.cancel", base+i+1)
+				cancels[i]()
+			}
+		}
+	}
 	for i := 0; i < m; i++ {
 		toks[i] = e.call("waitctx", ctxs[i])
 	}
-	if instant != "before-send" {
+	if instant != "before-send" && instant != "before-send-busy" {
 		for _, t := range toks {
 			e.waitEv(2*time.Second, evIs("h.start", t))
 		}
@@ -79,6 +96,16 @@ func scenCancel(m int, mask int, instant string) *connRun {
 		time.Sleep(10 * time.Millisecond)
 	case "before-send":
 		time.Sleep(30 * time.Millisecond)
+	case "before-send-busy":
+		g.wait(2 * time.Second)
+		time.Sleep(40 * time.Millisecond) // requests and cancel requests pile up behind the held executor
+		g.release()
+		for i := 0; i < m; i++ {
+			if mask&(1<<i) != 0 {
+				e.waitEv(2*time.Second, evIs("h.ctxdone", toks[i]))
+			}
+		}
+		time.Sleep(10 * time.Millisecond)
 	}
 	e.releaseAllHolds()
 	e.waitCalls(3 * time.Second)
@@ -95,9 +122,13 @@ func scenCancel(m int, mask int, instant string) *connRun {
 
 func cancelOracle(r *connRun, toks []int, mask int, instant string) string {
 	saw := map[string]bool{}
+	started := map[string]bool{}
 	for _, ev := range r.Events {
 		if ev.Point == "h.ctxdone" {
 			saw[fmt.Sprint(ev.Args[0])] = true
+		}
+		if ev.Point == "h.start" {
+			started[fmt.Sprint(ev.Args[0])] = true
 		}
 	}
 	for i, t := range toks {
@@ -107,6 +138,9 @@ func cancelOracle(r *connRun, toks []int, mask int, instant string) string {
 		}
 		if cancelled && instant == "after-send" && !saw[fmt.Sprint(t)] {
 			return fmt.Sprintf("call %d was cancelled by its caller while in flight but its handler context never was", t)
+		}
+		if cancelled && instant == "before-send-busy" && started[fmt.Sprint(t)] && !saw[fmt.Sprint(t)] {
+			return fmt.Sprintf("call %d was cancelled by its caller right at send; its handler ran, but with a context that was never cancelled (the cancel request was lost)", t)
 		}
 	}
 	return ""
@@ -373,8 +407,8 @@ func init() {
 			maxM := 3
 			for m := 1; m <= maxM; m++ {
 				for mask := 0; mask < 1<<m; mask++ {
-					for _, inst := range []string{"after-send", "before-send", "race-response"} {
-						if inst == "race-response" && mask == 0 {
+					for _, inst := range []string{"after-send", "before-send", "race-response", "before-send-busy"} {
+						if (inst == "race-response" || inst == "before-send-busy") && mask == 0 {
 							continue
 						}
 						if tier == "quick" && m == 3 && inst != "after-send" && mask%3 != int(seed%3) {
